@@ -141,7 +141,7 @@ Fixpoint struct_regs (inp : inputs) (rs : list Z) (val : list N) : list N * list
   match rs with
   | [] => ([], val)
   | r :: rest =>
-      let val1 := snd (get_register_arg inp TReg 0 r 0 val) in
+      let val1 := snd (get_register_arg inp TReg 0 r 8 val) in      (* reg_spec.size = sizeof(long): movsd for xmm *)
       let '(w, val2) := struct_regs inp rest val1 in
       (takeN 8 val1 ++ w, val2)
   end.
@@ -880,7 +880,7 @@ Definition ok_sitem (l : lang) (s : spec) (a : aval) (o : oitem) : bool :=
   | AStruct => str_ok (struct_text (s_name s))
   | AScr ints strs flts =>
       match o with
-      | OInt z => existsb (fun c => oitem_eqb l (OInt c) o) ints
+      | OInt z => existsb (fun c => oitem_eqb l (OInt c) o || ((z - c) mod 2 ^ 64 =? 0)%Z) ints   (* the same 64 bits *)
       | OStr x => existsb (list_eqb x) strs
       | OFlt sz b => existsb (fun p => (fst p =? sz) && (snd p =? b)) flts
       | _ => false
